@@ -805,6 +805,9 @@ evaluate() const {
     case '|':
       return Result(r1.as_integer() | r2.as_integer());
 
+    case '^':
+      return Result(r1.as_integer() ^ r2.as_integer());
+
     case '&':
       return Result(r1.as_integer() & r2.as_integer());
 
@@ -1210,6 +1213,7 @@ determine_type() const {
 
     case '%':
     case '|':
+    case '^':
     case '&':
     case LSHIFT:
     case RSHIFT:
